@@ -73,6 +73,7 @@ structure Summary where
 deriving Repr, DecidableEq, Inhabited
 
 inductive Ev
+  | testRun      (number total : Nat)        -- `printTestRun(number, total)`: start of one repetition (-r)
   | testsStarted
   | groupStarted (t : TestInfo)              -- `printCurrentGroupStarted(test)`
   | testStarted  (t : TestInfo)              -- `printCurrentTestStarted(test)`
@@ -316,5 +317,12 @@ def loop (flt : Option Filter) : Bool → Nat → R → List Script → List Ev
 /-- `TestRegistry::runAllTests` as seen by the output -/
 def runAll (flt : Option Filter) (tests : List Script) : List Ev :=
   .testsStarted :: loop flt true 0 {} tests
+
+/-- `CommandLineTestRunner::runAllTests`: the repeat loop (`-r<total>`).  ONE output object receives, for every
+    repetition, `printTestRun` and then a whole run of the registry with a fresh `TestResult` (all times and
+    counts the writers see are differences within that run, so every repetition looks the same to them —
+    what is carried across is only the writers' own state). -/
+def runRepeated (total : Nat) (flt : Option Filter) (tests : List Script) : List Ev :=
+  (List.range total).flatMap fun i => .testRun (i + 1) total :: runAll flt tests
 
 end OutEv
